@@ -1045,8 +1045,11 @@ def check_json_family(run, prop, replay=None):
                         bad = "a valid document is rejected"
                     elif "__DUPLICATE_KEYS__" in canon_json_hex(ikv.get("reenc", "")) or ikv.get("reenc") == "MarshalErr":
                         bad = "re-encoding a decoded valid document is not valid JSON"
-                    elif canon_json_hex(ikv.get("reenc", "")) != canon_json_hex(mkv.get("reenc", "")):
+                    elif canon_json_hex(ikv.get("reenc", "")) != canon_json_hex(mkv.get("keep", mkv.get("reenc", ""))):
+                        # [keep] of Spec/JsonSpec.v, evaluated by the extracted specification (C08_lossless)
                         bad = "re-encoding differs from the kept part of the document"
+                    elif "keep" in mkv and canon_json_hex(mkv["keep"]) != canon_json_hex(mkv.get("reenc", "")):
+                        corr.append((i, c, im, mo, ctx, "the model's re-encoding differs from keep (C08_lossless does not apply to this schema?)"))
                 else:
                     k = exp.split(":", 1)[1]
                     if not i_err:
